@@ -5,6 +5,7 @@ import OsacaVerif.Driver.DGraph
 import OsacaVerif.Driver.C18
 import OsacaVerif.Driver.C17
 import OsacaVerif.Driver.C20
+import OsacaVerif.Driver.C11
 open OsacaVerif OsacaVerif.Proto
 
 /-- one handler per property module; the first that recognises the op answers -/
@@ -14,7 +15,8 @@ def handlers : List (Req → Option String) := [
   Driver.DGraph.handle,
   Driver.C18.handle,
   Driver.C17.handle,
-  Driver.C20.handle
+  Driver.C20.handle,
+  Driver.C11.handle
 ]
 
 def dispatch (r : Req) : String :=
